@@ -2,6 +2,7 @@ import SciVerif.Tie.RunSem
 import SciVerif.Tie.ProcSem
 import SciVerif.Tie.Task
 import SciVerif.Props.C05
+import SciVerif.Tie.Pins
 /-! Tie A obligations for C05 on the current source. -/
 namespace SciVerif.Tie
 open SciVerif.Generated
@@ -36,7 +37,32 @@ theorem c05_on_source (ls : List Proc.Label) (s : Proc.PSt)
     (h : Proc.run procSem Proc.init ls = some s) (hexit : s.started = []) : s.forwarded = s.accepted :=
   C05.c05_process_exit_all_forwarded procSem generated_proc_sem_good_c05 ls s h hexit
 
+
+-- BEGIN PINS (written by bin/mkpins; do not edit by hand)
+/-- the Go functions this property's model and obligations were written against have exactly the
+pinned skeletons (SHA-256 prefix of the atom list) -/
+theorem pinned_skeletons_c05 :
+    pinsOk
+    [("Scipipe.FinalizePaths", "291fc0cefa37cea9"),
+     ("Scipipe.Process_Run", "05880ea16e590fb1"),
+     ("Scipipe.Sink_Run", "2d6c7d95ef617224"),
+     ("Scipipe.Task_Execute", "40fd1fec0c69deb2"),
+     ("Scipipe.Task_anyOutputsExist", "0609a842b7aaf7a8"),
+     ("Scipipe.Task_executeCommand", "98e77d849c0638cb"),
+     ("Scipipe.Task_finalizePaths", "9cd0530d4e86fa92"),
+     ("Scipipe.Task_formatCommand", "ccbe98735ce5c7d6"),
+     ("Scipipe.Task_writeAuditLogs", "5ee6e36ed2566be6"),
+     ("Scipipe.Workflow_IncConcurrentTasks", "acd0e561d4db6cb8"),
+     ("Scipipe.Workflow_readyToRun", "378c8cdc8eb779a8"),
+     ("Scipipe.Workflow_reconnectDeadEndConnections", "9ed90a908028bbfc"),
+     ("Scipipe.Workflow_runProcs", "e319d71e11b8d924"),
+     ("Scipipe.mergeWFMaps", "c658dad781cfdc20"),
+     ("Scipipe.taskQueue_NextTaskDone", "749f6263d8a0c13f"),
+     ("Scipipe.upstreamProcsForProc", "f9ed2dcd363d8677")] = true := by decide
+-- END PINS
+
 end SciVerif.Tie
+#print axioms SciVerif.Tie.pinned_skeletons_c05
 #print axioms SciVerif.Tie.generated_run_sem_good_c05
 #print axioms SciVerif.Tie.generated_proc_sem_good_c05
 #print axioms SciVerif.Tie.generated_slot_locked_c05
